@@ -3,7 +3,11 @@
 # This software is licensed under the BSD 3-Clause License.
 """Compute diffs of state points."""
 
-from ._utility import _dotted_dict_to_nested_dicts, _nested_dicts_to_dotted_keys
+from ._utility import (
+    _dotted_dict_to_nested_dicts,
+    _nested_dicts_to_dotted_keys,
+    _to_hashable,
+)
 
 
 def diff_jobs(*jobs):
@@ -55,7 +59,11 @@ def diff_jobs(*jobs):
     else:
         statepoints = {}
         for job in jobs:
-            statepoints[job] = set(_nested_dicts_to_dotted_keys(job.statepoint()))
+            # Empty mappings are yielded as plain dicts, which must be made hashable.
+            statepoints[job] = {
+                (key, _to_hashable(value))
+                for key, value in _nested_dicts_to_dotted_keys(job.statepoint())
+            }
 
         intersection = set.intersection(*statepoints.values())
 
